@@ -286,6 +286,14 @@ class FakeOs(object):
     def _exit(self, code):
         return self.exit_hook(code)
 
+    # wait-status helpers are pure functions
+    import os as _os
+    WEXITSTATUS = staticmethod(_os.WEXITSTATUS)
+    WIFEXITED = staticmethod(_os.WIFEXITED)
+    WIFSIGNALED = staticmethod(_os.WIFSIGNALED)
+    WTERMSIG = staticmethod(_os.WTERMSIG)
+    del _os
+
     def __getattr__(self, name):
         raise NotImplementedError('os.%s is not provided by the simulated file system' % name)
 
